@@ -247,12 +247,16 @@ def run_case(case, res):
             before = snapshot(client.session, sm)
             text = json.dumps({'jsonrpc': '2.0', 'method': method, 'params': params, 'id': 7})
             n0 = len(client.messages)
+            tokens0 = client.nonstandard_tokens
             client.send_raw(text.encode() + b'\n')
             s.run_idle()
             res.count('requests')
             replies = [m for m in client.messages[n0:] if m.get('id') == 7 and 'method' not in m]
             bad = None
-            if len(replies) != 1:
+            if client.nonstandard_tokens != tokens0:
+                # the reply is not JSON: it carries a NaN / Infinity token
+                bad = ('reply-is-not-json', dict(reply=str(replies[:1])[:300]))
+            elif len(replies) != 1:
                 bad = ('no-reply' if not replies else 'several-replies', {})
             else:
                 r = replies[0]
